@@ -101,7 +101,7 @@ impl Prop for C18 {
         "one case = (configuration that builds, export history in which EVERY folder fault kind is applied in turn, each followed by heal and retry); distinct = distinct hash of literal world+history; non-trivial = at least one lookahead cluster verified against the automaton dump AND every verdict-bearing fault kind (missing, not_a_dir, read_only_perm, read_only_fs, name_is_dir, stale_file) actually fired"
     }
     fn runs(&self) -> (u64, u64) {
-        (6_000, 150_000)
+        (15_000, 600_000)
     }
     fn expected_probes(&self) -> &'static [&'static str] {
         &[
